@@ -98,6 +98,14 @@ FwStep(s, c, t, w, r) ==
     /\ LET cc == IF Valid(c) THEN c ELSE (IF c.act = "ramp" THEN Call("ramp", <<c.a[1], 0>>) ELSE Call("run_for", <<0, c.a[2]>>)) IN
        /\ NearSt(t, PostOf(s, cc))
        /\ FwWaveOK(s, cc, w)
+(* Known deviation (known_findings.json: motor-tiny-speed-mode): a commanded speed too small for a non-zero PWM
+   count leaves get_mode() = "coast" on the device although the host says "drive"; all else as specified. *)
+KnownTinyMode(s, c, t, w, r) ==
+    LET cc == IF Valid(c) THEN c ELSE (IF c.act = "ramp" THEN Call("ramp", <<c.a[1], 0>>) ELSE Call("run_for", <<0, c.a[2]>>))
+        e == PostOf(s, cc) IN
+    /\ TinyDrive(e) /\ e.mode = "drive" /\ t.mode = "coast"
+    /\ FwStep(s, c, [t EXCEPT !.mode = "drive"], w, r)
+
 Step(sd, s, c, t, w, r) == IF sd = "host" THEN HostStep(s, c, t, w, r) ELSE FwStep(s, c, t, w, r)
 
 StepDiff(sd, s, c, t, w, r) ==
